@@ -99,7 +99,7 @@ func modelToStrings(m map[string]interface{}) map[string]string {
 	return out
 }
 
-func noNativeHarness(name string) bool { return strings.HasSuffix(name, "_sym") }
+func noNativeHarness(name string) bool { return strings.Contains(name, "_sym") }
 
 func replayAll(cfg *RunConfig, ld *Loaded, runs []*HarnessRun) *ReplayResult {
 	rr := &ReplayResult{Failed: map[string]bool{}, Dirs: map[string]string{}, NoNative: map[string]bool{}}
